@@ -1011,11 +1011,14 @@ class QueryBuilder(Selectable, Term):  # type:ignore[misc]
             A copy of the query with the table added.
         """
 
-        self._from.append(
-            Table(selectable)
-            if isinstance(selectable, str)
-            else selectable  # type:ignore[arg-type]
-        )
+        if isinstance(selectable, str):
+            selectable = Table(selectable)
+        if isinstance(selectable, Table):
+            # a second FROM item for a table that is in the statement already gets the automatic alias a join would give it
+            self._alias_repeated_table(
+                selectable, self._from + [self._update_table] + [j.item for j in self._joins]
+            )
+        self._from.append(selectable)  # type:ignore[arg-type]
 
         if isinstance(
             selectable, (QueryBuilder, _SetOperation)
@@ -1483,30 +1486,28 @@ class QueryBuilder(Selectable, Term):  # type:ignore[misc]
         base_tables = self._from + [self._update_table] + self._with
         join.validate(base_tables, self._joins)  # type:ignore[arg-type]
 
-        tables_in_query = [
-            source
-            for source in base_tables + [j.item for j in self._joins]
-            if isinstance(source, Table)
-        ]
+        self._alias_repeated_table(join.item, base_tables + [j.item for j in self._joins])
+
+        self._joins.append(join)
+
+    @staticmethod
+    def _alias_repeated_table(item: Any, sources: list) -> None:
+        tables_in_query = [source for source in sources if isinstance(source, Table)]
         if (
-            isinstance(join.item, Table)
-            and join.item.alias is None
-            and any(join.item == table for table in tables_in_query)
+            isinstance(item, Table)
+            and item.alias is None
+            and any(item == table for table in tables_in_query)
         ):
-            # On the odd chance that we join a table that is in the statement already and don't set an alias:
+            # On the odd chance that we add a table that is in the statement already and don't set an alias:
             # give it the next free one - <name>2, <name>3, ...
             # every source counts - a subquery or set operation answers to its alias
             names_in_use = {table.get_table_name() for table in tables_in_query} | {
-                getattr(source, "alias", None)
-                for source in base_tables + [j.item for j in self._joins]
-                if source is not None
+                getattr(source, "alias", None) for source in sources if source is not None
             }
             number = 2
-            while "%s%d" % (join.item._table_name, number) in names_in_use:
+            while "%s%d" % (item._table_name, number) in names_in_use:
                 number += 1
-            join.item.alias = "%s%d" % (join.item._table_name, number)
-
-        self._joins.append(join)
+            item.alias = "%s%d" % (item._table_name, number)
 
     def is_joined(self, table: Table) -> bool:
         return any(table == join.item for join in self._joins)
